@@ -1,1 +1,158 @@
-(* C18 stub: to be written *)
+(* C18 — Shaped RF pulses equal the ordered product of hard pulses and evolutions.
+   Only statements, each closed by [exact], followed by Print Assumptions.
+   Model: Model/RFPulse.v (executed over Qc by the correspondence check); matrices T_op, Phi_op,
+   E_op, P_op are the GENERATED ones of Gen/Transition.v, Gen/Evolution.v. *)
+From Coq Require Import List ZArith QArith Qcanon Reals.
+From Coquelicot Require Import Coquelicot.
+From EPG Require Import Scalar State Ops CInst Transition Evolution RFPulse RFPulseProofs.
+Import ListNotations.
+Local Open Scope R_scope.
+
+(* (1) shape, length and order of the operator list, for every number type: n operators
+   T(180 |v_i| rf, arg v_i, duration d_i) in sample order, wrapped in Phi(-o) ... Phi(o) iff o is given and non-zero *)
+Theorem C18_pulse_structure (N : NumOps) (vals : list (sample N)) (dur : dspec N) (rf : N) (off : option N)
+  (ops : list (pop N)) :
+  make_pulse_sequence N vals dur rf off = Some ops ->
+  exists ds, sample_durations N (length vals) dur = Some ds /\ length ds = length vals /\
+    let body := pulse_body N vals ds rf in
+    length body = length vals /\
+    (forall i v d, nth_error vals i = Some v -> nth_error ds i = Some d ->
+       nth_error body i = Some (PT (nmul N (nmul N (nofZ N 180) (fst v)) rf) (snd v) d)) /\
+    ops = match off with
+          | None => body
+          | Some o => if neqb N o (nofZ N 0) then body else PPhi (nopp N o) :: body ++ [PPhi o]
+          end.
+Proof. exact (pulse_structure N vals dur rf off ops). Qed.
+Print Assumptions C18_pulse_structure.
+
+(* (2) pulse_is_product: without relaxation the list acts on every phase state as the ordered matrix
+   product Phi(o) . T_n . ... . T_1 . Phi(-o) of the generated matrices *)
+Theorem C18_pulse_is_product (vals : list (R * R)) (dur : dspec RNum) (rf : R) (off : option R)
+  (ops : list (pop RNum)) :
+  make_pulse_sequence RNum vals dur rf off = Some ops ->
+  let Ts := map (fun v => T_op (180 * fst v * rf) (snd v)) vals in
+  (forall e x, act_list ops e x = mv (mprod (map mat_of ops)) x) /\
+  mprod (map mat_of ops) =
+    match off with
+    | None => mprod Ts
+    | Some o => if neqb RNum o 0 then mprod Ts else mmul (Phi_op o) (mmul (mprod Ts) (Phi_op (- o)))
+    end.
+Proof. exact (pulse_is_product vals dur rf off ops). Qed.
+Print Assumptions C18_pulse_is_product.
+
+(* (2b) with T1/T2/g (modify): operators are applied sample by sample; a sample of positive duration d
+   is followed by E(d, T1, T2, g), a sample of zero duration is not *)
+Theorem C18_pulse_with_evolution (T1 T2 g : option R) (ops : list (pop RNum)) (e x : triple Cops) :
+  act_list (modify RNum T1 T2 g ops) e x =
+  fold_left (fun y o => act_list (modify_op RNum T1 T2 g o) e y) ops x.
+Proof. exact (act_list_modify T1 T2 g ops e x). Qed.
+Print Assumptions C18_pulse_with_evolution.
+
+Theorem C18_sample_followed_by_evolution (T1 T2 g a p d : R) :
+  modify_op RNum (Some T1) (Some T2) (Some g) (@PT RNum a p d) =
+  if Rlt_dec 0 d then [@PT RNum a p d; @PE RNum d T1 T2 g] else [@PT RNum a p d].
+Proof. exact (modify_op_T T1 T2 g a p d). Qed.
+Print Assumptions C18_sample_followed_by_evolution.
+
+(* (2c) the operator list run by the state-matrix model of C01/C08 (Model/Ops.v) is the phase-state-wise action *)
+Theorem C18_run_is_statewise (ops : list (pop RNum)) (s : sm Cops) :
+  run (map to_op ops) s = pw (act_list ops) s.
+Proof. exact (run_act_list ops s). Qed.
+Print Assumptions C18_run_is_statewise.
+
+(* (3) pulse_duration: the operator durations add up to the scalar duration / to the sum of the per-sample durations,
+   also after modify() and after encode_phase *)
+Theorem C18_pulse_duration (vals : list (R * R)) (dur : dspec RNum) (rf alpha phi T1 T2 g : option R) (S : R)
+  (ops : list (pop RNum)) :
+  rfpulse RNum vals dur rf alpha phi T1 T2 g S = Some ops ->
+  total_duration RNum ops = match dur with DScalar d => d | DList ds => rsum ds end.
+Proof. exact (rfpulse_duration vals dur rf alpha phi T1 T2 g S ops). Qed.
+Print Assumptions C18_pulse_duration.
+
+Theorem C18_encode_phase_duration (ops : list (pop RNum)) (D grad gamma x : R) (rw : option R) :
+  total_duration RNum (encode_phase RNum ops D grad gamma x rw) = total_duration RNum ops.
+Proof. exact (encode_phase_duration ops D grad gamma x rw). Qed.
+Print Assumptions C18_encode_phase_duration.
+
+(* (4) phase_offset_identity and its lift to products of any length *)
+Theorem C18_phase_offset_identity (o a p : R) :
+  mmul (Phi_op o) (mmul (T_op a p) (Phi_op (- o))) = T_op a (p + o).
+Proof. exact (phase_offset_identity o a p). Qed.
+Print Assumptions C18_phase_offset_identity.
+
+Theorem C18_phase_offset_product (o : R) (ts : list (R * R)) :
+  mmul (Phi_op o) (mmul (mprod (map (fun t => T_op (fst t) (snd t)) ts)) (Phi_op (- o)))
+  = mprod (map (fun t => T_op (fst t) (snd t + o)) ts).
+Proof. exact (phase_offset_product o ts). Qed.
+Print Assumptions C18_phase_offset_product.
+
+(* (4b) whole pulses, relaxation and precession included: phi = o  <=>  all samples multiplied by exp(i o) *)
+Theorem C18_phase_offset_is_sample_rotation (vals : list (R * R)) (dur : dspec RNum) (rf alpha : option R) (o : R)
+  (T1 T2 g : option R) (S : R) (ops : list (pop RNum)) : o <> 0 ->
+  rfpulse RNum vals dur rf alpha (Some o) T1 T2 g S = Some ops ->
+  exists ops', rfpulse RNum (map (shift_sample o) vals) dur rf alpha None T1 T2 g S = Some ops' /\
+    (forall e x, act_list ops e x = act_list ops' e x) /\
+    (forall v, polar (shift_sample o v) = Cmult (cis (o * PI / 180)) (polar v)).
+Proof. exact (phase_offset_is_sample_rotation vals dur rf alpha o T1 T2 g S ops). Qed.
+Print Assumptions C18_phase_offset_is_sample_rotation.
+
+(* (5) const_phase_single_rotation *)
+Theorem C18_same_axis_angles_add (a1 a2 p : R) : mmul (T_op a1 p) (T_op a2 p) = T_op (a1 + a2) p.
+Proof. exact (T_same_axis a1 a2 p). Qed.
+Print Assumptions C18_same_axis_angles_add.
+
+Theorem C18_const_phase_single_rotation (p : R) (ss : list R) (vals : list (R * R)) (dur : dspec RNum) (rf : R)
+  (ops : list (pop RNum)) :
+  Forall2 (cp_sample p) ss vals ->
+  make_pulse_sequence RNum vals dur rf None = Some ops ->
+  forall e x, act_list ops e x = mv (T_op (180 * rf * rsum ss) p) x.
+Proof. exact (const_phase_single_rotation p ss vals dur rf ops). Qed.
+Print Assumptions C18_const_phase_single_rotation.
+
+Theorem C18_const_phase_target_angle (p : R) (ss : list R) (vals : list (R * R)) (dur : dspec RNum) (alpha : R)
+  (ops : list (pop RNum)) :
+  Forall2 (cp_sample p) ss vals -> rsum ss <> 0 ->
+  rfpulse RNum vals dur None (Some alpha) None None None None (Cmod (csum vals)) = Some ops ->
+  forall e x, act_list ops e x = mv (T_op (if Rle_dec 0 (rsum ss) then alpha else - alpha) p) x.
+Proof. exact (const_phase_target_angle p ss vals dur alpha ops). Qed.
+Print Assumptions C18_const_phase_target_angle.
+
+(* (6) estimate_inverse on the constant-phase branch, on (0, 180) degree *)
+Theorem C18_estimate_alpha_of_rf (p : R) (ss : list R) (vals : list (R * R)) (alpha : R) :
+  Forall2 (cp_sample p) ss vals -> rsum ss <> 0 -> 0 < alpha < 180 ->
+  estimate_alpha vals (estimate_rf vals alpha) = alpha.
+Proof. exact (estimate_alpha_of_rf p ss vals alpha). Qed.
+Print Assumptions C18_estimate_alpha_of_rf.
+
+Theorem C18_estimate_rf_of_alpha (p : R) (ss : list R) (vals : list (R * R)) (rf : R) :
+  Forall2 (cp_sample p) ss vals -> 0 < rf * Rabs (rsum ss) < 1 ->
+  estimate_rf vals (estimate_alpha vals rf) = rf.
+Proof. exact (estimate_rf_of_alpha p ss vals rf). Qed.
+Print Assumptions C18_estimate_rf_of_alpha.
+
+(* (6b) the boundary: the faithful model of estimate_alpha answers -180 (not 0) for a zero pulse, any waveform *)
+Theorem C18_estimate_alpha_zero_rf_refuted (vals : list (R * R)) : estimate_alpha vals 0 = -180.
+Proof. exact (estimate_alpha_zero_rf vals). Qed.
+Print Assumptions C18_estimate_alpha_zero_rf_refuted.
+
+(* (7) encode_phase_is_modify: encode_phase is modify() with g = the frequency map (plus the optional rewinder) *)
+Theorem C18_encode_phase_is_modify (N : NumOps) (ops : list (pop N)) (D grad gamma x : N) (rw : option N) :
+  encode_phase N ops D grad gamma x rw =
+  modify N None None (Some (space_to_freq N grad gamma x)) ops ++
+  match rw with None => [] | Some r => [PP (nmul N D r) (nopp N (space_to_freq N grad gamma x))] end.
+Proof. exact (encode_phase_is_modify N ops D grad gamma x rw). Qed.
+Print Assumptions C18_encode_phase_is_modify.
+
+Theorem C18_encode_phase_sample (g a p d : R) :
+  modify_op RNum None None (Some g) (@PT RNum a p d) =
+  if Rlt_dec 0 d then [@PT RNum a p d; @PP RNum d g] else [@PT RNum a p d].
+Proof. exact (modify_op_T_g g a p d). Qed.
+Print Assumptions C18_encode_phase_sample.
+
+(* non-vacuity: the executed model on a concrete waveform (|3+4i|/8 = 5/8, duration 1 over two samples, rf 1/2, phi 30) *)
+Example C18_nonvacuous :
+  rfpulse QcNum [(qq 5 8, qq 53 1); (qq 1 2, qq 0 1)] (@DScalar QcNum (qq 1 1)) (Some (qq 1 2)) None (Some (qq 30 1))
+          (Some (qq 1000 1)) None None (qq 1 1)
+  = Some [@PPhi QcNum (qq (-30) 1); @PT QcNum (qq 225 4) (qq 53 1) (qq 1 2); @PE QcNum (qq 1 2) (qq 1000 1) (qq 10000000000 1) (qq 0 1);
+          @PT QcNum (qq 45 1) (qq 0 1) (qq 1 2); @PE QcNum (qq 1 2) (qq 1000 1) (qq 10000000000 1) (qq 0 1); @PPhi QcNum (qq 30 1)].
+Proof. vm_compute. reflexivity. Qed.
